@@ -16,7 +16,7 @@ import (
 func init() {
 	register(&Def{
 		ID: "C20",
-		Explanation: "A data race needs a write to shared memory. The rules bound who can write what: (globals) every write to a package-level variable of a library package - direct store, map update, or a call that passes the variable's address to a function whose summary writes through that parameter - is in an init function / variable initialiser or in the frozen registration API; (readonly) no function reachable (CHA call graph, function values included) from the read-only entry table (walks, loads, ComputeLink, Wrap/Prototype, CompileSelector and Selector methods, DeepEqual, the registered encoders, Registry lookups, TypeSystem getters, read methods of the bundled stores) contains a non-fresh write to a field of a shared-by-construction type (traversal.Config, linking.LinkSystem, multicodec.Registry, schema.TypeSystem and Type* structs, Selector implementations, store structs); (hasher) hashers are per call. " +
+		Explanation: "A data race needs a write to shared memory. The rules bound who can write what: (globals) every write to a package-level variable of a library package - direct store, map update, or a call that passes the variable's address to a function whose summary writes through that parameter - is in an init function / variable initialiser or in the frozen registration API; (readonly) no function reachable (CHA call graph, function values included) from the read-only entry table (walks, loads, ComputeLink, Wrap/Prototype, CompileSelector and Selector methods, DeepEqual, the registered encoders, Registry lookups, TypeSystem getters, read methods of the bundled stores) contains a non-fresh write to a field of a shared-by-construction type (traversal.Config, linking.LinkSystem, multicodec.Registry, schema.TypeSystem and Type* structs, Selector implementations, store structs); (hasher) hashers are per call.  (sharedslice) a slice a shared object hands out of its own storage is never written, sorted or handed to a writer." +
 			"No schedule is explored; races inside dependencies or user callbacks are out of scope.",
 		NotCovered: []string{"actual schedules", "races inside refmt/go-cid/go-multihash or user callbacks", "node storage (governed by C11.confine: assemblers reachable from Load legitimately write the fresh node they build)", "per-walk state (Progress by value, Budget/SeenLinks per walk by contract)"},
 		Trusted:    []string{"go/ssa, go/types, CHA call graph (sound over-approximation of calls)", "Go memory model: no write, no race"},
